@@ -70,3 +70,35 @@ def srt_frames(fps=25, model=None, obligation=None, **_):
     if want.denominator == 1 and got != f"{want.numerator}f":
       bad = True
   return bad, f"{line!r} at {fps} fps: " + ", ".join(txt)
+
+
+def writer_reader(fmt="srt", shape="twop", mask=(), model=None, obligation=None, **_):
+  import logging
+  import ttconv.model as m
+  import rtc.cues_common as P
+  from specs.isd_shapes import SHAPES
+  from specs import cues as C
+  logging.disable(logging.CRITICAL)
+  model = model or {}
+  vals = {k: Fraction(str(model.get(k, 0) or 0)) for k in mask}
+  doc = SHAPES[shape](lambda n: vals.get(n))
+  text, err = P.run_writer(doc, fmt)
+  if err is not None:
+    return True, f"writer raised {err!r}"
+  cues, problems, _ = P.read_output(fmt, text)
+  import ttconv.srt.reader as sr
+  import ttconv.vtt.reader as vr
+  doc2 = (sr if fmt == "srt" else vr).to_model(io.StringIO(text))
+  ps = [e for e in doc2.get_body().dfs_iterator() if isinstance(e, m.P)]
+  got = []
+  for p in ps:
+    lines, cur = [], ""
+    for e in p.dfs_iterator():
+      if isinstance(e, m.Br):
+        lines.append(cur); cur = ""
+      elif isinstance(e, m.Text):
+        cur += e.get_text()
+    lines.append(cur)
+    got.append((p.get_begin() * 1000, p.get_end() * 1000, C.NL.join(lines)))
+  want = [(c["begin"], c["end"], c["text"]) for c in cues]
+  return (got != want or bool(problems)), f"shape {shape} with {dict((k, str(v)) for k, v in vals.items())}\nwritten:\n{text}\nread back: {got}\ncues written: {want}"
